@@ -152,7 +152,7 @@ def quiesce(cs, rng, cap=4000):
     return used
 
 
-def run_threaded(case, seed, smart=False, duration=1.2, yield_q=0.02):
+def run_threaded(case, seed, smart=False, duration=1.2, yield_q=0.02, poll_busy=False):
     """case: workload case (ONE*/DISJ; step entries are ignored, user ops are applied by one user thread per side).
     -> dict(problems, stats)"""
     install_state_tap()
@@ -267,6 +267,20 @@ def run_threaded(case, seed, smart=False, duration=1.2, yield_q=0.02):
                     torn.append((type(e).__name__, str(e)[:80]))    # not a verdict (C15 is about read-modify-writes)
                 time.sleep(0.002)
 
+        def poller():
+            # an application that polls 'busy' as fast as it can (progress indicators do): every poll takes an event from
+            # the provider on the application's thread while the event loop is consuming the same stream
+            n = 0
+            while not stop_flag.is_set():
+                try:
+                    cs.busy                             # pylint: disable=pointless-statement
+                except Exception as e:                  # noqa
+                    torn.append((type(e).__name__, str(e)[:80]))
+                n += 1
+                if n % 20 == 0:
+                    time.sleep(0)
+            stats["busy_polls"] = n
+
         def smart_app():
             r = random.Random("%s:sapp" % seed)
             while not stop_flag.is_set():
@@ -294,6 +308,8 @@ def run_threaded(case, seed, smart=False, duration=1.2, yield_q=0.02):
                threading.Thread(target=app, name="app")]
         if smart:
             ths.append(threading.Thread(target=smart_app, name="smart-app"))
+        if poll_busy:
+            ths.append(threading.Thread(target=poller, name="busy-poller"))
         for t in ths:
             t.start()
         ths[0].join()
@@ -358,3 +374,85 @@ def run_threaded(case, seed, smart=False, duration=1.2, yield_q=0.02):
         for p in provs:
             EventManager._provider_guard.remove(p)      # pylint: disable=protected-access
     return {"problems": probs, "stats": stats}
+
+
+def events_handoff_round(seed, n_ops=150, yield_q=0.15):
+    """No-loss monitor at the boundary the engine consumes: one producer (user operations on a MockProvider) and the two
+    consumers the engine really has - the event loop, which drains provider.events(), and EventManager.busy, which takes
+    one event and abandons the generator (called from application threads).  Every event index the provider ever
+    assigned must be delivered to at least one consumer.  -> (problems, stats)"""
+    rng = random.Random(seed)
+    p = MockProvider(rng.random() < 0.5, True)
+    p.connect({"key": "val"})
+    p.mkdir("/r")
+    for _ in p.events():
+        pass
+    first = p.latest_cursor
+    got = [set(), set()]
+    done = threading.Event()
+    errs = []
+
+    def producer():
+        names = []
+        try:
+            for i in range(n_ops):
+                if names and rng.random() < 0.3:
+                    info = p.info_path(rng.choice(names))
+                    if info:
+                        p.upload(info.oid, io.BytesIO(b"w%d" % i))
+                else:
+                    nm = "/r/f%d" % i
+                    p.create(nm, io.BytesIO(b"c%d" % i))
+                    names.append(nm)
+                if i % 7 == 0:
+                    time.sleep(0)
+        except Exception as e:      # noqa
+            errs.append(("producer", type(e).__name__, str(e)[:100]))
+        finally:
+            done.set()
+
+    def loop_consumer():
+        try:
+            while True:
+                fin = done.is_set()
+                for e in p.events():
+                    got[0].add(e.new_cursor)
+                if fin:
+                    break
+        except Exception as e:      # noqa
+            errs.append(("loop", type(e).__name__, str(e)[:100]))
+
+    def busy_consumer():
+        try:
+            while not done.is_set():
+                for e in p.events():
+                    got[1].add(e.new_cursor)
+                    break
+        except Exception as e:      # noqa
+            errs.append(("busy", type(e).__name__, str(e)[:100]))
+
+    old_si = sys.getswitchinterval()
+    yl = Yielder(yield_q, rng.getrandbits(32))
+    sys.setswitchinterval(1e-6)
+    yl.start()
+    try:
+        ths = [threading.Thread(target=f, name=n) for f, n in ((producer, "producer"), (loop_consumer, "event-loop"),
+                                                                (busy_consumer, "busy"))]
+        for t in ths:
+            t.start()
+        for t in ths:
+            t.join(60)
+    finally:
+        yl.stop()
+        sys.setswitchinterval(old_si)
+    for e in p.events():            # whatever is left
+        got[0].add(e.new_cursor)
+    last = p.latest_cursor
+    missing = [c for c in range(first + 1, last + 1) if c not in got[0] and c not in got[1]]
+    probs = []
+    if errs:
+        probs.append(("consumer_or_producer_raised", errs[:2]))
+    if missing:
+        probs.append(("provider_event_delivered_to_no_consumer", missing[:5], "of", last - first))
+    return probs, {"events": last - first, "to_loop": len(got[0]), "to_busy": len(got[1]), "both": len(got[0] & got[1]),
+                   "lines": yl.lines, "yields": yl.yields}
